@@ -442,6 +442,34 @@ def run_impl(case):
     for kwd in case.get("more_kwargs", []):
         more.append(session(obj, kwd, False))      # SAME object: a history of calls
     out["more"] = more
+    # reproducibility across interpreter processes: group-stratified sampling of string-labelled groups under a fixed
+    # np.random.seed gives the same replicates whatever PYTHONHASHSEED is (nothing may depend on set / dict order of labels)
+    if (case["kind"] == "group" and sp["type"] == "builtin" and sp.get("stratified") == "by_group" and "rows" in out
+            and int(sp["seed"]) % 2 == 0):
+        import json as _json
+        import os as _os
+        import subprocess as _sub
+        import sys as _sys
+        script = (
+            "import json, sys, numpy as np\n"
+            "from score_analysis import GroupScores, BootstrapConfig\n"
+            "c = json.loads(sys.argv[1])\n"
+            "names = ['zeta', 'a10', 'b2', 'Alpha']\n"
+            "g = GroupScores(pos=np.array(c['pos']), neg=np.array(c['neg']), pos_groups=np.array([names[i] for i in c['pg']]),\n"
+            "                neg_groups=np.array([names[i] for i in c['ng']]), score_class=c['sc'], equal_class=c['ec'])\n"
+            "cfg = BootstrapConfig(nb_samples=4, sampling_method=c['sm'], stratified_sampling='by_group')\n"
+            "np.random.seed(c['seed'])\n"
+            "rows = g.bootstrap_metric('group_tpr', config=cfg, threshold=c['thr'])\n"
+            "print(json.dumps([None if v != v else float(v) for v in np.asarray(rows, dtype=float).reshape(-1)]))\n")
+        arg = _json.dumps({"pos": [float(v) for v in pos], "neg": [float(v) for v in neg], "pg": [int(v) for v in case["pos_groups"]],
+                           "ng": [int(v) for v in case["neg_groups"]], "sc": case["sc"], "ec": case["ec"],
+                           "sm": sp["sampling_method"], "seed": int(sp["seed"]), "thr": float(np.median(np.concatenate([pos, neg])))})
+        outs = []
+        for hs in ("1", "2", "3"):
+            env_ = dict(_os.environ, PYTHONHASHSEED=hs)
+            p_ = _sub.run([_sys.executable, "-W", "ignore", "-c", script, arg], env=env_, capture_output=True, text=True, timeout=120)
+            outs.append(p_.stdout.strip().splitlines()[-1] if p_.returncode == 0 and p_.stdout.strip() else f"error: {p_.stderr[-200:]}")
+        out["hashseed_runs"] = outs
     return out
 
 
@@ -698,6 +726,11 @@ def _oracle_one(case, r):
                 fails.append(("C14/identity", f"identity sampler: component {j} interval ({C13._num(ci[(j * nz + k_) * 2])}, "
                                               f"{C13._num(ci[(j * nz + k_) * 2 + 1])}) is not the point estimate {C13._num(h)}"))
                 break
+    hs = r.get("hashseed_runs")
+    if hs and not all(o_.startswith("error") for o_ in hs) and len(set(hs)) > 1:
+        fails.append(("C14/reproducible/across-processes",
+                      f"the same seeded by_group bootstrap of string-labelled groups gives different replicates in interpreter processes "
+                      f"with PYTHONHASHSEED = 1, 2, 3: {hs[0][:80]} / {hs[1][:80]} / {hs[2][:80]}"))
     # --- reproducibility: same seed (same sampler history) => identical results, on the same and on a fresh equal object
     for key_r, key_c, what in (("rows_b", "ci_b", "two runs on the same object"), ("rows_fresh", "ci_fresh", "this object and a fresh equal object")):
         if key_r in r and (not all(_same(a, b) for a, b in zip(r["rows"], r[key_r])) or len(r["rows"]) != len(r[key_r])):
